@@ -581,6 +581,7 @@ fn batch(a: &Args) -> i32 {
     let from = a.num("--from", 0);
     let to = a.num("--to", 1000);
     let rc = RunCfg { profile, seed, thorough: a.has("--thorough"), digests: a.has("--digests") };
+    report::SOFT_MASK.store(report::soft_mask_for(pname), Relaxed);
     shared::init();
     sh().next_run = from;
     let mut restarts = 0u64;
@@ -653,6 +654,7 @@ fn replay(a: &Args) -> i32 {
     }
     let ops = ops::parse_ops(a.get("--ops").unwrap_or(""), ';').unwrap_or_else(|e| die(&e));
     let faults = Faults::parse(a.get("--faults").unwrap_or("")).unwrap_or_else(|e| die(&e));
+    report::SOFT_MASK.store(if a.has("--all-oracles") { report::S_ALL } else { report::soft_mask_for(pname) }, Relaxed);
     let layouts: Vec<u64> = a.get("--layouts").unwrap_or("1").split(',').filter(|s| !s.is_empty()).map(|s| s.parse().unwrap_or_else(|_| die("bad layout"))).collect();
     shared::init();
     alloc::init(true);
